@@ -15,19 +15,53 @@ def rehash(k, bits):
 class C32(Check):
     id = "C32"
     prop_file = "theories/Properties/Properties_C32.v"
-    theorems = ("C32_hash_in_range", "C32_hash_low_bits", "C32_seq_refinement", "C32_each_binding_once")
+    theorems = ("C32_hash_in_range", "C32_hash_low_bits", "C32_seq_refinement", "C32_each_binding_once",
+                "C32_linearizable", "C32_owners_distinct", "C32_step_keeps_other_keys", "C32_reachable_for_all")
     comp = "hasht"
     extract_file = "theories/Extract/Extract_HashT.v"
     extracted = ("hasht",)
     harness_src = "harness/h_hasht.c"
     harness_cflags = ("-DBUILDING_PARSEC",)
     link_parsec = True
-    level_text = "TODO"
-    level_note = "TODO"
-    technique = "Coq proof + differential run"
-    rule = "TODO"
-    trusted = ()
-    assumptions = ()
+    level_text = ("Three layers. (1) Sequential: an executable model of parsec_hash_table.c (chain of tables newest first, buckets as lists "
+                  "with their cur_len counters, used_buckets, head insertion, find-migrates-to-newest, unlinking of emptied old tables, "
+                  "resize decided at insert/unlock_bucket from max_collisions_hint and max_table_nb_bits) is proved to refine a finite map "
+                  "for EVERY operation sequence (insert/find/remove/lock/unlock/nolock_*/for_all) that respects insert's precondition, every "
+                  "initial size, hint (also <= 0) and size limit: find returns the live value, remove returns and deletes it, every live "
+                  "binding is stored exactly once in the bucket its key hashes to, for_all visits each exactly once. (2) The 64-bit wrapping "
+                  "multiply-shift hash is always < 2^nb_bits and the index in an older table is the low part of the index in a newer one. "
+                  "(3) Concurrency at critical-section granularity: for every number of threads, every program and EVERY schedule, the "
+                  "operations ordered by their linearization points form a legal map history (linearizability), two threads inside critical "
+                  "sections hold different newest buckets/keys, a step changes the binding of no other key. Tie: T-seq (results + full dump "
+                  "after every operation) and T-sched (real parsec_hash_table.c + parsec_rwlock.c under chosen schedules, compared step for step "
+                  "-- results, invocation/response steps, final chain of tables, rw-lock words, per-thread step counts -- with an atomic-step "
+                  "model that has one step per scheduling point); the oracle replays a dict (T-seq) and checks linearizability per key (T-sched). "
+                  "Full for (1) and (2); (3) is full at the stated granularity with bucket locks and the rw-lock as primitives.")
+    level_note = ("Trusted: Coq kernel, extraction, harness, cosched/interpose.h. The proof model of (3) (HashTLinDefs.v) is NOT the model that is "
+                  "run against the code (HashTConcDefs.v): it merges lock;section;unlock of an old bucket into one step, takes lock semantics "
+                  "(mutual exclusion of bucket locks, reader/writer exclusion: C33) as given, and represents the chain as the list of linked "
+                  "tables (a table emptied through a stale prev pointer stays linked, empty, in the code and in HashTConcDefs.v). The two are "
+                  "related by construction and by the tests only. The tested model includes the TICKET rw-lock word for word; nothing is proved "
+                  "about it here. Keys are 64-bit with the generic key functions (key_hash = identity); user key_equal/key_hash callbacks, "
+                  "the HELPFIRST variant, parsec_hash_table_stat and fini are not modelled. Sequentially consistent atomics; cur_len and "
+                  "used_buckets do not overflow int32. for_all is only meaningful on a quiescent table (documented as not thread safe).")
+    technique = ("Coq proofs (permutation-based refinement of list-of-tables model to a finite map; invariant + ghost linearization log over all "
+                 "schedules) + differential runs of the real code against the extracted models: single thread with dumps, and "
+                 "controlled-schedule coroutines (macro-interposed atomics/locks, rw-lock wait loops made to yield)")
+    rule = ("seq/seqh: random operation sequences (8..60 ops + optional drain) over a pool of 8..40 keys chosen (with a Python replica of the "
+            "hash, generation only) to collide in the low hash bits, tables starting at 1..3 bits, hint in {-1,0,1,2,3,4}, size limit low "
+            "enough to hit the 'cannot grow' branch; handle and non-handle API; 1/12 of the cases violate insert's precondition on purpose "
+            "(model comparison only). sched: 1..16 threads, 1..5 operations each on a few hot keys (inserts only by the key's owner thread), "
+            "tables pre-filled over several generations, schedules: sequential, round-robin, bursts, all-enter-first, one-thread-held-back, random. "
+            "Non-trivial = more than 12 tokens (seq) / at least 2 threads and an interleaving schedule (sched); distinct = case text")
+    trusted = ("cosched.h/interpose.h scheduling points; harness/h_hasht.c redefines nanosleep to cos_spin() while including parsec_rwlock.c so that the "
+               "rw-lock wait loops yield (after their first 1000 iterations) -- no change to the repository",
+               "MCA parameters set with parsec_mca_param_set_int on the indices registered by parsec_hash_tables_init (parsec_debug_init + "
+               "parsec_mca_param_init only, no parsec_init)",
+               "Python replica of the hash function is used only to generate colliding keys, never in the oracle")
+    assumptions = ("clients insert a key only when it is not in the table (API precondition; enforced by the generator through key ownership)",
+                   "bucket locks are mutual-exclusion locks and the rw-lock excludes writers from readers (C33) -- used by theorem group (3)",
+                   "sequentially consistent atomics; keys fit in 64 bits; generic key functions")
 
     # ------------------------------------------------------------------ generation
     def key_pool(self, r):
@@ -87,8 +121,11 @@ class C32(Check):
 
         nops = r.range(8, 60)
         grow = r.range(30, 80)
+        plain = r.chance(1, 4)            # insert/find/remove/for_all only: the driver also runs the atomic-step model on these
         while len(ops) < nops:
             x = r.below(100)
+            if plain and 85 <= x < 95:
+                x = r.below(85)
             if x < grow * 6 // 10:
                 ins("i")
             elif x < 70:
@@ -200,13 +237,29 @@ class C32(Check):
             out.append(self.sched_case(r))
         return out
 
+    def search_cases(self):
+        r = self.rng.fork()
+        return [self.seq_case(r) for _ in range(300)] + [self.sched_case(r) for _ in range(300)]
+
     def nontrivial_key(self, case):
+        if case.startswith("sched"):
+            f = [x.strip() for x in case.split("|")]
+            s = f[3].split()
+            if len(f[2].split("/")) < 2:
+                return None
+            inter = any(s[i] != s[i + 1] and s[i] in s[i + 2:] for i in range(len(s) - 2))
+            return case if inter else None
         return case if len(case.split()) > 12 else None
 
     def dist(self, cases):
-        d = {"seq": 0, "seqh": 0, "sched": 0}
+        d = {"seq": 0, "seqh": 0, "sched": 0, "threads_hist": {}, "hint_hist": {}}
         for c in cases:
-            d[c.split()[0]] = d.get(c.split()[0], 0) + 1
+            w = c.split()
+            d[w[0]] = d.get(w[0], 0) + 1
+            d["hint_hist"][w[2]] = d["hint_hist"].get(w[2], 0) + 1
+            if w[0] == "sched":
+                nt = str(len(c.split("|")[2].split("/")))
+                d["threads_hist"][nt] = d["threads_hist"].get(nt, 0) + 1
         return d
 
     # ------------------------------------------------------------------ oracle
